@@ -337,6 +337,14 @@ func rampBoundaries(kind string) []int {
 	return out
 }
 
+func rep(n, k int) string {
+	ss := make([]string, k)
+	for i := range ss {
+		ss[i] = strconv.Itoa(n)
+	}
+	return strings.Join(ss, ",")
+}
+
 var segPats = []string{"1", "2", "3,5,7", "5", "512", "13,1,511", "6,4", "100"}
 var bufPats = []string{"1", "2", "7", "16384", "65536", "1,2,3,5,8,13,21", "1024", "16383,1"}
 
@@ -360,7 +368,7 @@ func main() {
 			for _, dyn := range []int{0, 1} {
 				for _, app := range []int{0, 1} {
 					for _, bs := range []int{0, 1, 131071, 131072, 131073, 1 << 30} {
-						for _, ps := range []int{0, 1, 2, 12, 13, 14, 15, 16, 999, 1000, 1001, 1002, 5000} {
+						for _, ps := range []int{0, 1, 2, 3, 4, 5, 6, 7, 8, 9, 10, 11, 12, 13, 14, 15, 16, 17, 18, 19, 20, 999, 1000, 1001, 1002, 5000} {
 							emit(fmt.Sprintf("ph=mps kind=%s dyn=%d app=%d bs=%d ps=%d k=3", kind, dyn, app, bs, ps))
 						}
 					}
@@ -412,6 +420,18 @@ func main() {
 				for _, ps := range []int{0, 5, 999, 1000, 1001} {
 					emit(fmt.Sprintf("ph=loop kind=%s dyn=1 bs=%d ps=%d w=2500,1,2500,20000 seed=%d close=1 seg=512 bufs=4096", kind, bs, ps, rng.Intn(256)))
 				}
+			}
+		}
+		// the ramp must never overshoot the plaintext limit: k tiny writes, then one write that
+		// still has more than a full record outstanding at every step of the ramp; and bulk
+		// writes that run through the whole ramp before the 128 KiB boost
+		for _, kind := range kinds {
+			for k := 1; k <= 20; k++ {
+				emit(fmt.Sprintf("ph=loop kind=%s dyn=1 bs=0 ps=0 w=%s,%d seed=%d close=1 seg=512 bufs=65536", kind, rep(1, k), 3*16384+7, rng.Intn(256)))
+			}
+			for _, bulk := range []int{124 * 1024, 200 * 1024} {
+				emit(fmt.Sprintf("ph=loop kind=%s dyn=1 bs=0 ps=0 w=%d seed=%d close=1 seg=512 bufs=65536", kind, bulk, rng.Intn(256)))
+				emit(fmt.Sprintf("ph=loop kind=%s dyn=1 bs=1285 ps=0 w=%d seed=%d close=1 seg=509,3 bufs=16384,1", kind, bulk, rng.Intn(256)))
 			}
 		}
 		// random
@@ -469,6 +489,23 @@ func main() {
 				emit(fmt.Sprintf("ph=e2e suite=%s kind=%s dyn=%d w=0,1,1200,5000,16385,3 seed=%d close=1 seg=7,512,1 bufs=1000,1,16384", su, kind, dyn, rng.Intn(256)))
 				emit(fmt.Sprintf("ph=e2e suite=%s kind=%s dyn=%d w=700,2,49159 seed=%d close=1 seg=512 bufs=65536", su, kind, dyn, rng.Intn(256)))
 				emit(fmt.Sprintf("ph=e2e suite=%s kind=%s dyn=%d w=10,20,30 seed=%d close=0 seg=1 bufs=1,7", su, kind, dyn, rng.Intn(256)))
+			}
+		}
+		// right after the handshake: bulk writes through the whole ramp, and k tiny writes followed
+		// by one that has more than a full record outstanding at every step
+		for _, su := range names {
+			kind := su[strings.Index(su, "-")+1:]
+			if !thorough && strings.HasPrefix(su, "ecdhe") {
+				continue
+			}
+			for _, bulk := range []int{124 * 1024, 200 * 1024} {
+				emit(fmt.Sprintf("ph=e2e suite=%s kind=%s dyn=1 w=%d seed=%d close=1 seg=512 bufs=65536", su, kind, bulk, rng.Intn(256)))
+			}
+			for k := 1; k <= 20; k++ {
+				if !thorough && (k < 11 || k > 16) {
+					continue
+				}
+				emit(fmt.Sprintf("ph=e2e suite=%s kind=%s dyn=1 w=%s,%d seed=%d close=1 seg=512 bufs=65536", su, kind, rep(1, k), 3*16384+7, rng.Intn(256)))
 			}
 		}
 		n := 12 * o.Scale
